@@ -252,11 +252,11 @@ fn receive_acks(
         while message.has_remaining() {
             match postcard_utils::from_buf(&mut message) {
                 Ok(mutate_index) => {
-                    let mut ticks = clients.get_mut(client).unwrap_or_else(|_| {
-                        panic!(
-                            "messages from client `{client}` should have been removed on disconnect"
-                        )
-                    });
+                    let Ok(mut ticks) = clients.get_mut(client) else {
+                        // Only authorized clients have ticks.
+                        debug!("ignoring acknowledgement from unauthorized client `{client}`");
+                        break;
+                    };
                     ticks.ack_mutate_message(
                         client,
                         &mut entity_buffer,
